@@ -14,7 +14,7 @@
      pstamp path c      c with the uid of the amplifier stage that processes it pushed on its history, for every
                         amplifier of the path in turn (Multiband: the first per-band amplifier whose band holds c)
      same_chan a b      a and b agree on id, frequency, baud rate, slot width, label and transmitter data *)
-From Coq Require Import QArith Permutation Lia.
+From Coq Require Import QArith Qround Permutation Lia.
 From Verif Require Import Prelude Model.Channels Proofs.Channels.
 Open Scope Q_scope.
 
@@ -124,6 +124,123 @@ Theorem launch_perm : forall path dmin dmax dsp (l l' : list chan), pos_slots l 
 Proof. exact Proofs.Channels.launch_perm. Qed.
 Print Assumptions launch_perm.
 
+(* ================= construction of the launched spectrum ================= *)
+(* SpectralInformation.__init__ is written column-wise (indices = argsort(frequency), every array re-indexed):
+   it is the row-wise constructor applied to the rows *)
+Theorem mk_si_columnwise : forall cs : cols, mk_si_cols cs = mk_si (rows cs).
+Proof. exact Proofs.Channels.mk_si_cols_rowwise. Qed.
+Print Assumptions mk_si_columnwise.
+
+(* carriers_to_spectral_information: the per-attribute lists built from keys() / values() are, entry by entry, the
+   carriers of the dict - for any dict order *)
+Theorem carriers_to_si_rowwise : forall d : list (Q * carrier), carriers_to_si d = mk_si (map chan_of d).
+Proof. exact Proofs.Channels.carriers_to_si_rowwise. Qed.
+Print Assumptions carriers_to_si_rowwise.
+
+Theorem carriers_to_si_perm : forall d d' : list (Q * carrier),
+  pos_carriers d -> Permutation d d' -> carriers_to_si d = carriers_to_si d'.
+Proof. exact Proofs.Channels.carriers_to_si_perm. Qed.
+Print Assumptions carriers_to_si_perm.
+
+Theorem carriers_to_si_attached : forall (d : list (Q * carrier)) (s : si),
+  pos_carriers d -> carriers_to_si d = Ok s ->
+  Permutation (map chan_of d) s /\ si_ok s /\
+  (forall c, In c s -> exists kv, In kv d /\ c = chan_of kv) /\
+  (forall kv, In kv d -> In (chan_of kv) s).
+Proof. exact Proofs.Channels.carriers_to_si_attached. Qed.
+Print Assumptions carriers_to_si_attached.
+
+(* create_input_spectral_information: the uniform grid *)
+Theorem uniform_grid_accepted : forall fmin fmax sp baud label tx, 0 < sp -> baud <= sp -> fmin <= fmax ->
+  create_input_si fmin fmax sp baud label tx =
+    Ok (grid_chans fmin sp baud label tx (Qfloor ((fmax - fmin) / sp))).
+Proof. exact Proofs.Channels.create_input_si_ok. Qed.
+Print Assumptions uniform_grid_accepted.
+
+Theorem uniform_grid_fmax_below_fmin : forall fmin fmax sp baud label tx, 0 < sp -> fmax < fmin ->
+  create_input_si fmin fmax sp baud label tx = Err E_negdim.
+Proof. exact Proofs.Channels.create_input_si_negative. Qed.
+Print Assumptions uniform_grid_fmax_below_fmin.
+
+Theorem uniform_grid_count : forall fmin sp baud label tx n,
+  length (grid_chans fmin sp baud label tx n) = Z.to_nat n.
+Proof. exact Proofs.Channels.grid_chans_length. Qed.
+Print Assumptions uniform_grid_count.
+
+Theorem uniform_grid_channels : forall fmin fmax sp baud label tx c, 0 < sp ->
+  In c (grid_chans fmin sp baud label tx (Qfloor ((fmax - fmin) / sp))) ->
+  exists i, (1 <= i <= Qfloor ((fmax - fmin) / sp))%Z /\ c = grid_chan fmin sp baud label tx i /\
+            fmin < cf c /\ cf c <= fmax /\ fmin + half sp <= clo c /\ chi c <= fmax + half sp.
+Proof. exact Proofs.Channels.grid_chans_spec. Qed.
+Print Assumptions uniform_grid_channels.
+
+Theorem uniform_grid_maximal : forall fmin fmax sp, 0 < sp ->
+  fmax < fmin + sp * inject_Z (Qfloor ((fmax - fmin) / sp) + 1).
+Proof. exact Proofs.Channels.grid_maximal. Qed.
+Print Assumptions uniform_grid_maximal.
+
+Theorem uniform_grid_increasing_separated : forall fmin sp baud label tx n, 0 < sp -> baud <= sp ->
+  si_ok (grid_chans fmin sp baud label tx n) /\ pw (fun a b => cf a < cf b) (grid_chans fmin sp baud label tx n).
+Proof.
+  intros fmin sp baud label tx n Hsp Hb.
+  exact (conj (Proofs.Channels.grid_chans_ok fmin sp baud label tx n Hsp Hb)
+              (Proofs.Channels.grid_chans_increasing fmin sp baud label tx n Hsp)).
+Qed.
+Print Assumptions uniform_grid_increasing_separated.
+
+Theorem uniform_grid_baud_rejected : forall fmin fmax sp baud label tx, 0 < sp -> sp < baud ->
+  (1 <= Qfloor ((fmax - fmin) / sp))%Z -> create_input_si fmin fmax sp baud label tx = Err E_baud.
+Proof. exact Proofs.Channels.create_input_si_baud. Qed.
+Print Assumptions uniform_grid_baud_rejected.
+
+(* ================= find_common_range with default_design_bands; the spacing key ================= *)
+Theorem common_range_gen_spec : forall amps dmin dmax dsp ddb x, filter_valid amps <> [] ->
+  ((exists b, In b (find_common_range_gen amps dmin dmax dsp ddb) /\ bmin b < x /\ x < bmax b) <->
+   (forall a, In a (filter_valid amps) -> exists b, In b a /\ bmin b < x /\ x < bmax b)).
+Proof. exact Proofs.Channels.common_range_gen_point. Qed.
+Print Assumptions common_range_gen_spec.
+
+Theorem common_range_gen_spec_channel : forall amps dmin dmax dsp ddb c, 0 < cslot c -> filter_valid amps <> [] ->
+  (in_some (find_common_range_gen amps dmin dmax dsp ddb) c = true <->
+   (forall a, In a (filter_valid amps) -> in_some a c = true)).
+Proof. exact Proofs.Channels.common_range_gen_slot. Qed.
+Print Assumptions common_range_gen_spec_channel.
+
+(* every returned band carries a spacing, lies inside one band of every valid amplifier, and its spacing is at least
+   the one that band declares (sp_ge r b: bsp b = Some x -> exists y, bsp r = Some y /\ x <= y) *)
+Theorem common_range_spacing : forall amps dmin dmax dsp ddb r, filter_valid amps <> [] ->
+  In r (find_common_range_gen amps dmin dmax dsp ddb) ->
+  (exists y, bsp r = Some y) /\
+  (forall a, In a (filter_valid amps) -> exists b, In b a /\ bsub r b /\ sp_ge r b).
+Proof. exact Proofs.Channels.common_range_gen_refines. Qed.
+Print Assumptions common_range_spacing.
+
+(* ================= idempotence; filtering commutes with the construction ================= *)
+Theorem filter_bands_idempotent : forall bs (s k : si), si_ok s -> bands_disjoint bs ->
+  filter_bands bs s = Ok k -> filter_bands bs k = Ok k.
+Proof. exact Proofs.Channels.filter_bands_idem. Qed.
+Print Assumptions filter_bands_idempotent.
+
+Theorem filter_si_idempotent : forall path dmin dmax dsp (s k : si), path_ok path -> si_ok s ->
+  filter_si path dmin dmax dsp s = Ok k -> filter_si path dmin dmax dsp k = Ok k.
+Proof. exact Proofs.Channels.filter_si_idem. Qed.
+Print Assumptions filter_si_idempotent.
+
+Theorem filter_before_or_after_construction : forall bs (l : list chan) (s : si),
+  pos_slots l -> bands_disjoint bs -> mk_si l = Ok s ->
+  filter_bands bs s = match filter (in_some bs) l with
+                      | [] => Err E_noband
+                      | l' => mk_si l'
+                      end.
+Proof. exact Proofs.Channels.filter_before_or_after. Qed.
+Print Assumptions filter_before_or_after_construction.
+
+Theorem filter_commutes_with_permutation : forall path dmin dmax dsp (l l' : list chan),
+  pos_slots l -> Permutation l l' ->
+  (let* s := mk_si l in filter_si path dmin dmax dsp s) = (let* s := mk_si l' in filter_si path dmin dmax dsp s).
+Proof. exact Proofs.Channels.filter_perm. Qed.
+Print Assumptions filter_commutes_with_permutation.
+
 (* ================= non-vacuity ================= *)
 (* frequencies in GHz: C band 191250..196150, L band 186550..190050 *)
 Definition ch (i : Z) (f b w : Z) : chan := mkC i (inject_Z f) (inject_Z b) (inject_Z w) "x" [inject_Z i] [].
@@ -203,3 +320,64 @@ Example ex_multi_drops_gap_channel :
   | Err _ => False
   end.
 Proof. vm_compute. reflexivity. Qed.
+
+(* ---- construction ---- *)
+(* the default SI band 191.3 .. 196.1 THz with 50 GHz spacing (GHz units): 96 channels, the first on 191350, the last
+   on 196100 = f_max, whose slot therefore ends 25 GHz above f_max *)
+Example ex_grid :
+  match create_input_si (inject_Z 191300) (inject_Z 196100) (inject_Z 50) (inject_Z 32) "32.00G" [] with
+  | Ok s => (length s = 96%nat) /\ (map cf (firstn 1 s) = [inject_Z 191300 + inject_Z 50 * inject_Z 1]) /\
+            Qeq_bool (chi (last s (ch 0 0 0 0))) (inject_Z 196125) = true
+  | Err _ => False
+  end.
+Proof. vm_compute. repeat split; reflexivity. Qed.
+Example ex_grid_awkward_spacing :     (* spacing 100/3 GHz: 144 channels, accepted (exact arithmetic) *)
+  match create_input_si (inject_Z 191300) (inject_Z 196100) (100 # 3) (inject_Z 32) "" [] with
+  | Ok s => length s = 144%nat
+  | Err _ => False
+  end.
+Proof. vm_compute. reflexivity. Qed.
+Example ex_grid_baud : create_input_si (inject_Z 191300) (inject_Z 196100) (inject_Z 50) (inject_Z 51) "" [] = Err E_baud.
+Proof. vm_compute. reflexivity. Qed.
+Example ex_grid_zero_spacing : create_input_si (inject_Z 191300) (inject_Z 196100) 0 (inject_Z 32) "" [] = Err E_zero.
+Proof. vm_compute. reflexivity. Qed.
+
+Definition kk (i : Z) (b w : Z) (l : string) : carrier :=
+  mkK i (inject_Z b) (inject_Z w) l (inject_Z (40 + i)) (1 # 1000) (inject_Z i) (15 # 100).
+Definition ex_dict : list (Q * carrier) :=
+  [(inject_Z 193000, kk 1 32 50 "a"); (inject_Z 187000, kk 2 64 75 "b"); (inject_Z 195000, kk 3 28 37 "c")].
+Example ex_carriers :
+  match carriers_to_si ex_dict, carriers_to_si (rev ex_dict) with
+  | Ok s, Ok s' => s = s' /\ map (fun c => (cid c, clabel c, cbaud c)) s =
+                               [(2%Z, "b"%string, inject_Z 64); (1%Z, "a"%string, inject_Z 32); (3%Z, "c"%string, inject_Z 28)]
+  | _, _ => False
+  end.
+Proof. vm_compute. split; reflexivity. Qed.
+Example ex_pos_carriers : pos_carriers ex_dict.
+Proof. intros kv [<-|[<-|[<-|[]]]]; reflexivity. Qed.
+Example ex_dimension_mismatch :
+  create_arbitrary_cols (mkCols [1; 2]%Z [inject_Z 193000; inject_Z 193100] [inject_Z 32] [inject_Z 50; inject_Z 50]
+                                [""; ""]%string [0; 0] [0; 0] [0; 0] [0; 0]) = Err E_dim.
+Proof. vm_compute. reflexivity. Qed.
+
+(* ---- spacing: amplifier 1 declares 75 on C; amplifier 2 declares nothing; design band gives 100 on L ---- *)
+Example ex_spacing_design_bands :
+  map (fun b => (bmin b, bsp b))
+      (find_common_range_gen [[mkRB (Some (inject_Z 191250)) (Some (inject_Z 196150)) (Some (inject_Z 75));
+                               mkRB (Some (inject_Z 186550)) (Some (inject_Z 190050)) None];
+                              [mkRB (Some (inject_Z 186000)) (Some (inject_Z 196500)) None]]
+                             None None (inject_Z 50)
+                             [mkB (inject_Z 186000) (inject_Z 190500) (Some (inject_Z 100))]) =
+  [(inject_Z 186550, Some (inject_Z 100)); (inject_Z 191250, Some (inject_Z 75))].
+Proof. vm_compute. reflexivity. Qed.
+
+(* ---- idempotence on the example path ---- *)
+Example ex_filter_idempotent :
+  match mk_si ex_l with
+  | Ok s => match filter_si ex_path None None (inject_Z 50) s with
+            | Ok k => filter_si ex_path None None (inject_Z 50) k = Ok k /\ map cid k = [6; 1; 5]%Z
+            | Err _ => False
+            end
+  | Err _ => False
+  end.
+Proof. vm_compute. split; reflexivity. Qed.
